@@ -140,7 +140,29 @@ def do_instance(data, cfg, bufsize, end, acc):
                 acc.violation(key, {"stream": data.hex(), "cfg": cfg, "bufsize": bufsize, "end": end, "choices": choices}, detail)
 
 
+HUGE = ("U4096", "R1023", "U256", "Nlong")
+
+
+def judge_huge(tok, tail, cfg, chunk, bufsize, end):
+    """Frames whose single read needs hundreds or thousands of recv() calls: fixed-chunk deliveries only
+    (the segmentation space of a 4 KiB frame cannot be enumerated)."""
+    data = streams.TOKENS[tok][2] + (streams.TOKENS[tail][2] if tail else b"")
+    want = item_sigs(run_reader(data, cfg))
+    c = dict(cfg); c["bufsize"] = bufsize
+    r = run_reader(data, c, stream=streams.ChunkSocket(data, chunk, end))
+    out = []
+    if r.raised is not None:
+        out.append((f"socket_read_raises|{type(r.raised).__name__}|long_frame", f"{tok}+{tail} chunk={chunk} bufsize={bufsize} end={end}: {r.raised}"[:200]))
+    elif r.horizon:
+        out.append(("socket_read_does_not_end|long_frame", f"{tok}+{tail} chunk={chunk} bufsize={bufsize} end={end}"))
+    elif item_sigs(r) != want:
+        out.append((f"items_differ_from_file_stream|{'missing_item' if len(r.items) < len(want) else 'other'}|long_frame", f"{tok}+{tail} chunk={chunk} bufsize={bufsize} end={end}: {len(r.items)} vs {len(want)} items"))
+    return out
+
+
 def replay_case(case):
+    if case.get("huge"):
+        return judge_huge(*case["huge"][:2], case["cfg"], *case["huge"][2:])
     data = bytes.fromhex(case["stream"])
     cfg = case["cfg"]
     want = item_sigs(run_reader(data, cfg))
@@ -151,6 +173,20 @@ def replay_case(case):
 
 def eval_block(block, acc):
     kind = block[0]
+    if kind == "huge":
+        tok = block[1]
+        for tail in (None, "Uack", "N1"):
+            for cfg in CFGS:
+                for chunk in (1, 2, 3, 7, 64, 1000, 4096):
+                    for bufsize in (1, 2, 3, 64, 4096):
+                        for end in ("close", "timeout"):
+                            out = judge_huge(tok, tail, cfg, chunk, bufsize, end)
+                            acc.evaluations += 1
+                            acc.transitions += 1
+                            acc.outcomes[("huge", tok, bufsize)] += 1
+                            for key, detail in out:
+                                acc.violation(key, {"huge": [tok, tail, chunk, bufsize, end], "cfg": cfg}, detail)
+        return
     if kind == "bytes":
         datas = list(streams.iter_block(tuple(block[1]) if block[1][0] == "short" else ("pre", block[1][1], block[1][2])))
         combos = list(itertools.product(BUFSIZES, ENDS))
@@ -193,6 +229,7 @@ def run_tier(tier, t0):
                 blocks.append(("compact2", f, g, 4, (1, 3, 4096), ("close", "timeout")))
         blocks += [("long", i, BUFSIZES, ENDS) for i in range(len(LONG))]
         depth = "3 (all bufsizes/ends), 4 (bufsize 1,3,4096; close,timeout)"
+    blocks += [("huge", t) for t in HUGE]
     acc = engine.sweep(blocks, eval_block)
     engine.finish(
         PROP, tier, acc, t0, replay_case,
@@ -206,10 +243,11 @@ def run_tier(tier, t0):
             "merging is sound because the key holds the real buffer bytes and a hash of every wrapper result the reader has seen (cross-checked unmerged for streams <= 10 bytes in this run)",
             "a free-running TCP sender is not used: the enumerated segmentations are a superset of what TCP can deliver for these sequences",
             "timeouts/resets occur only after the last byte (as in the statement)",
+            "long-frame ring: 4 KiB / 1 KiB / 256-byte / 200-char frames (alone, and followed by a UBX or NMEA frame) in fixed recv chunks 1,2,3,7,64,1000,4096 x bufsize 1,2,3,64,4096 x close/timeout - fixed chunkings only, their segmentation space cannot be enumerated",
         ],
         vacuity=[
             ("some instance had several complete executions", acc.extra["complete_executions"] > acc.extra["instances"]),
-            ("instances delivering >= 2 items", any(k[0] >= 2 for k in acc.outcomes)),
+            ("instances delivering >= 2 items", any(isinstance(k[0], int) and k[0] >= 2 for k in acc.outcomes)),
             ("unmerged cross-check ran", acc.extra["unmerged_crosscheck_instances"] > 0),
         ],
         extra_cov={"bounds": {"L": L, "compact_depth": depth}},
